@@ -43,7 +43,7 @@ ASSUMPTIONS = [
     'a failure is attributed to an open known finding only if (a) the request structurally carries that trigger, (b) the failing clauses are within the finding\'s '
     'signature and (c) a twin with only that trigger neutralised no longer shows those failures; remaining/new failures are explained recursively the same way or stay violations',
 ]
-REQUIRED = ['framing_length', 'framing_chunked', 'framing_close', 'framing_none_head', 'framing_none_status', 'chunked_multi_chunk',
+REQUIRED = ['redirect_for_a_target_not_in_normal_form', 'request_following_such_a_redirect', 'framing_length', 'framing_chunked', 'framing_close', 'framing_none_head', 'framing_none_status', 'chunked_multi_chunk',
             'stream_events', 'body_gt_64k', 'nonascii_str_body', 'generator_empty_item', 'file_body_bytesio', 'file_body_real', 'file_body_short_reads',
             'keepalive_further_request', 'keepalive_http10', 'close_announced_and_closed', 'kept_open_unannounced',
             'reconnect_after_close', 'head_requests', 'post_requests', 'error_page_response', 'app_content_length',
@@ -58,6 +58,7 @@ NOBODY = (204, 304)
 SIZED = ('str', 'bytes', 'list', 'yield')
 RAISES = ('raise', 'raise-request')     # a Controller method raises / a handler of the request event itself raises
 MAX_TICKS = 100
+GUARDS = ('/./', '/a/../', '//', '/a//', '/%2e/', '/../')
 
 K_HEAD = 'http.head-skips-cleanup'
 K_NOBODY = 'http.nobody-status-sends-body'
@@ -134,11 +135,13 @@ def echo_of(case, idx):
 
 
 def explicit_headers(case, idx, r):
+    if r.get('guard'):
+        return []        # the server answers by itself, the application is never asked
     return [['X-Case', echo_of(case, idx)]] + [list(h) for h in r.get('hdrs', [])]
 
 
 def expected_status(r):
-    return r['status']
+    return 301 if r.get('guard') else r['status']
 
 
 def R(method='GET', proto='1.1', conn=None, status=200, how='ret', body=None, stream=False, cl=False, hdrs=(), stale_cl=None):
@@ -163,7 +166,8 @@ def B(kind, v=None, items=None, real=False, short=None):
 
 
 def request_bytes(idx, r):
-    head = '%s /r%d HTTP/%s\r\nHost: c15.test\r\n' % (r['method'], idx, r['proto'])
+    # guard: a request target that is not in normal form (/./r3, /a/../r3, //r3): the server answers with a redirect to the normal form
+    head = '%s %sr%d HTTP/%s\r\nHost: c15.test\r\n' % (r['method'], r.get('guard') or '/', idx, r['proto'])
     if r['conn']:
         head += 'Connection: %s\r\n' % r['conn']
     body = b''
@@ -460,6 +464,10 @@ def judge_request(case, idx, r, o, marks):
     else:
         OK('RIGHT_CONNECTION')
     own = echo_of(case, idx)
+    if r.get('guard'):
+        marks.add('redirect_for_a_target_not_in_normal_form')
+    if idx and case['reqs'][idx - 1].get('guard'):
+        marks.add('request_following_such_a_redirect')
     if not o['fresh']:
         marks.add('keepalive_further_request')
         if r['proto'] == '1.0':
@@ -1045,6 +1053,13 @@ def corpus():
     add('conn-close-11', R(conn='close', body=S), R(body=S))
     add('post-seq', R(method='POST', body=S), R(method='POST', body=G, how='set'), R(method='POST', conn='close', body=S))
     add('push-empty', R(body=B('push', items=[]), how='set'), R(body=S))
+    # a request target that is not in normal form is answered by the server itself with a redirect; what follows on the connection (if the
+    # server keeps it) and on the next one is answered like any other request
+    for g in GUARDS:
+        for m in ('GET', 'HEAD', 'POST'):
+            add('guard-%s-%s' % (g, m), dict(R(method=m), guard=g), R(body=S), R(body=G, how='set'))
+        add('guard-10-%s' % g, dict(R(proto='1.0', conn='keep-alive'), guard=g), R(proto='1.0', conn='keep-alive', body=S), R(body=S))
+        add('guard-after-keepalive-%s' % g, R(body=S), dict(R(), guard=g), dict(R(conn='keep-alive'), guard=g), R(body=S))
     # the known findings, each in its minimal form
     add('F-head-then-get', R(method='HEAD', body=S), R(body=B('bytes', b'second')))
     add('F-head-close', R(method='HEAD', conn='close', body=S))
@@ -1082,6 +1097,8 @@ def gen_request(rng, keepalive_bias):
         proto, conn = rng.choice([('1.1', 'close'), ('1.0', None), ('1.0', 'close'), ('1.1', None)])
     status = rng.choice([200, 200, 200, 201, 204, 304, 404, 500])
     x = rng.random()
+    if rng.random() < 0.06:
+        return dict(R(method=method, proto=proto, conn=conn), guard=rng.choice(GUARDS))
     if x < 0.06:
         return R(method=method, proto=proto, conn=conn, status=404, how='notfound')
     if x < 0.09:
